@@ -186,6 +186,41 @@ def run_generic(ctx):
             shutil.rmtree(str(c.cache_directory), ignore_errors=True)
 
 
+def run_inputs_reused(ctx):
+    """A catalog must be the same object whoever created it: built by one worker (in the calling process) or by several
+    (whose results come back as copies), what it reports must not depend on what the caller does with the arrays it handed
+    over afterwards."""
+    rng = ctx.rng
+    for rnd in range(ctx.n(2, 8)):
+        npatch = rng.choice([2, 3, 4])
+        cents = [offset(120.0 + 9.0 * rnd, -25.0, k * 1.0, (k % 2) * 0.4) for k in range(npatch)]
+        pts = [p for k in range(npatch) for p in cluster(rng, cents[k][0], cents[k][1], 8, 0.4)]
+        cols = {"ra": np.array([p[0] for p in pts]), "dec": np.array([p[1] for p in pts]), "w": np.array([rng.randrange(1, 17) / 4.0 for _ in pts])}   # dyadic: sums do not depend on the row order in a patch
+        arr = np.deg2rad(np.asarray(cents, dtype="f8")).copy()
+        views, cats = {}, []
+        for label, w, real in (("w1", 1, False), ("sim3", 3, False), ("real2", 2, True)):
+            kw = dict(ra_name="ra", dec_name="dec", weight_name="w", patch_centers=impl.AngularCoordinates(arr), chunksize=7, max_workers=w)
+            if real or w == 1:
+                cat = impl.Catalog.from_dataframe(impl.fresh_dir(ctx, "reuse_" + label), impl.make_df(cols), **kw)
+            else:
+                with patched(simpool.Schedule("random", seed=rng.randrange(10 ** 6))):
+                    cat = impl.Catalog.from_dataframe(impl.fresh_dir(ctx, "reuse_" + label), impl.make_df(cols), **kw)
+            cats.append((label, cat))
+            views[label] = cat_view(cat)
+        arr += 0.25          # the caller goes on using its centre array
+        arr[:, 1] *= -1.0
+        ctx.count(key=("inputs-reused", rnd), nontrivial=True, kind="inputs-reused")
+        base = views["w1"]
+        for label, cat in cats:
+            now = cat_view(cat)
+            if views[label] != base or now != base:
+                ctx.fail("c05-catalog-depends-on-worker-count-after-inputs-reused",
+                         "the catalog created with %s reports other centres / radii / counts than the one created by one worker after the caller "
+                         "overwrote the centre array it had handed over (%s)" % (label, "already at creation" if views[label] != base else "after the overwrite"),
+                         dict(created_by=label, npatch=npatch), case=("inputs-reused", rnd, label))
+            shutil.rmtree(str(cat.cache_directory), ignore_errors=True)
+
+
 def run_large_patch(ctx):
     """A patch with more than a million weighted records: any work split, block size or memory budget that depends on
     the number of workers shows in the last bits of weighted sums.  Histogram and catalog accessors with 1, 2, 5 and 16
@@ -350,6 +385,7 @@ def run(ctx):
             shutil.rmtree(str(c.cache_directory), ignore_errors=True)
     run_generic(ctx)
     run_large_patch(ctx)
+    run_inputs_reused(ctx)
     impl.set_threads(1)
     codes = ctx.shards("Cases_C05", HEADER, terms, shard=40)
     for (cid, meta), c in zip(metas, codes):
